@@ -309,7 +309,8 @@ func (c *simConn) reply(out string) {
 	if out != "" && !strings.HasSuffix(out, "\n") {
 		out += "\n"
 	}
-	if rt.Fault("sock.garbage_reply", "") {
+	if !c.master && rt.Fault("sock.garbage_reply", "") {
+		// admin socket only: a corrupted master CLI is outside the fault model
 		out = "\x00\x01garbage\n"
 	}
 	if c.prompt {
